@@ -1427,10 +1427,21 @@ func (vm *VM) run() (Addr, bool) {
 						}
 					}
 				default:
-					if kind == reflect.Pointer {
-						v = v.Elem()
+					var length int
+					if kind == reflect.Pointer && v.IsNil() {
+						// A nil pointer to an array: the length is that
+						// of the array type; ranging over the elements
+						// dereferences the pointer.
+						if c != 0 {
+							panic(errNilPointer)
+						}
+						length = v.Type().Elem().Len()
+					} else {
+						if kind == reflect.Pointer {
+							v = v.Elem()
+						}
+						length = v.Len()
 					}
-					length := v.Len()
 					for i := range length {
 						if b != 0 {
 							vm.setInt(b, int64(i))
